@@ -82,6 +82,16 @@ func genPool(t *rapid.T, prop string) *PoolProg {
 	p.Flaps = rapid.IntRange(0, 10).Draw(t, "flaps")
 	p.Resolves = rapid.IntRange(0, 5).Draw(t, "resolves")
 	p.Siblings = rapid.SampledFrom([]int{0, 0, 1, 3}).Draw(t, "siblings")
+	if rapid.IntRange(0, 3).Draw(t, "deathprog") == 0 {
+		// the pool is emptied by shutdowns while BIND calls run on stale pickers (no refreshes: the fake's bookkeeping of replacements does not follow shutdowns)
+		p.Deaths = rapid.IntRange(1, 6).Draw(t, "deaths")
+		p.UdMs, p.Flaps = 0, rapid.IntRange(0, 3).Draw(t, "dflaps")
+		p.RR = rapid.IntRange(0, 2).Draw(t, "drr") != 0
+		if p.RR && rapid.Bool().Draw(t, "dkind") {
+			p.Kind = "rr"
+		}
+		p.Iter = rapid.IntRange(20, 60).Draw(t, "diter")
+	}
 	return p
 }
 
@@ -194,7 +204,7 @@ func runConc(t *testing.T, prop string, race bool) {
 			switch w {
 			case 0:
 				kind = "me"
-				prog = &MEProg{Kind: "me", RUs: rapid.SampledFrom([]int{0, 50, 1000}).Draw(rt, "r"), DUs: rapid.SampledFrom([]int{0, 50, 1000}).Draw(rt, "d"), G: rapid.IntRange(2, 6).Draw(rt, "g"), Iter: rapid.IntRange(20, 200).Draw(rt, "iter"), Seed: rapid.Uint64().Draw(rt, "seed"), Pert: 2}
+				prog = &MEProg{Kind: "me", RUs: rapid.SampledFrom([]int{0, 50, 1000}).Draw(rt, "r"), DUs: rapid.SampledFrom([]int{0, 50, 1000}).Draw(rt, "d"), G: rapid.IntRange(2, 6).Draw(rt, "g"), Iter: rapid.IntRange(20, 200).Draw(rt, "iter"), Seed: rapid.Uint64().Draw(rt, "seed"), Pert: 2, Shared: rapid.IntRange(0, 2).Draw(rt, "shared") == 0}
 			case 1:
 				kind = "gme"
 				prog = &GMEProg{Kind: "gme", G: rapid.IntRange(2, 5).Draw(rt, "g"), Iter: rapid.IntRange(5, 30).Draw(rt, "iter"), Updates: rapid.IntRange(0, 6).Draw(rt, "upd"), Outages: rapid.IntRange(0, 4).Draw(rt, "out"), Updaters: rapid.IntRange(1, 2).Draw(rt, "updaters"), Seed: rapid.Uint64().Draw(rt, "seed"), Pert: rapid.SampledFrom([]int{2, 2, 3}).Draw(rt, "gmepert"),
